@@ -142,12 +142,13 @@ def same_tree(a, b):
 
 
 COLS = ["a", "b", "c"]
+EXTRA_COLS = []        # set by a check that provides more columns (C02: d, e = inlined negative constants)
 
 
 def leaf(rng, kind="num"):
     r = rng.random()
     if r < 0.55:
-        return ["col", None, rng.choice(COLS)]
+        return ["col", None, rng.choice(COLS + (EXTRA_COLS if rng.random() < 0.25 else []))]
     if r < 0.65:
         return ["lit", None]
     if kind == "bool" and r < 0.8:
